@@ -408,7 +408,91 @@ func systematic(c *core.Ctx, r *core.Result, maxLen int) {
 	r.Subspaces = append(r.Subspaces, fmt.Sprintf("all %d histories of length<=%d over a 9-symbol relative alphabet from the in-session state", len(seqs), maxLen))
 }
 
+// resetDuringRecovery: early messages are kept while a gap is open, then the peer restarts its numbering with a
+// Logon carrying ResetSeqNumFlag=Y (also when the expected number is still small, and also after this side reset
+// first because ResetSeqTime was crossed), and the new numbering runs past the kept numbers. Nothing of the old
+// numbering may be handed over afterwards, and every message of the new numbering must be.
+func resetDuringRecovery(c *core.Ctx, r *core.Result) {
+	type sc struct {
+		begin         string
+		initiator     bool
+		pre, high, n2 int
+		ownResetFirst bool
+	}
+	var scs []sc
+	for _, b := range []string{"FIX.4.2", "FIX.4.4", "FIXT.1.1"} {
+		for _, ini := range []bool{false, true} {
+			for _, pre := range []int{0, 1, 3} {
+				for _, high := range []int{1, 2, 4} {
+					for _, own := range []bool{false, true} {
+						scs = append(scs, sc{b, ini, pre, high, 1 + (pre+high)%2, own})
+					}
+				}
+			}
+		}
+	}
+	core.Each(c, r, "reset-during-recovery", len(scs), func(i int, rng *rand.Rand) {
+		x := scs[i]
+		st := map[string]string{"ResendRequestChunkSize": "0", "ResetSeqTime": "12:00:00", "EnableResetSeqTime": "Y"}
+		l, err := lab.New(lab.Config{Begin: x.begin, Initiator: x.initiator, Settings: st, Tag: "c01r"})
+		if err != nil {
+			panic("harness: lab: " + err.Error())
+		}
+		defer l.Close()
+		p := l.NewPeer()
+		l.Start()
+		r.Eval(1)
+		if !l.Establish(p, 30) {
+			return
+		}
+		for k := 0; k < x.pre; k++ {
+			l.In("app (old numbering)", p.NewOrder(l.Snap().NextTarget, nil, fmt.Sprintf("old-%d", l.Snap().NextTarget)))
+		}
+		exp := l.Snap().NextTarget
+		for k := 0; k < x.n2; k++ {
+			l.In("app (old numbering, early: kept)", p.NewOrder(exp+x.high+k, nil, fmt.Sprintf("old-%d", exp+x.high+k)))
+		}
+		if x.ownResetFirst {
+			day := time.Date(2026, 9, 22, 0, 0, 0, 0, time.UTC)
+			l.CheckResetTime(day.Add(11*time.Hour + 59*time.Minute))
+			l.CheckResetTime(day.Add(12*time.Hour + time.Second))
+		}
+		mark := len(l.Trace)
+		l.In("Logon 141=Y (the peer restarts its numbering)", p.Logon(1, 30, lab.F(141, "Y")))
+		if !l.Snap().LoggedOn {
+			return
+		}
+		top := exp + x.high + x.n2 + 1
+		for n := 2; n <= top && l.Snap().LoggedOn; n++ {
+			l.In("app (new numbering)", p.NewOrder(n, nil, fmt.Sprintf("new-%d", n)))
+		}
+		var got []string
+		for _, e := range l.Trace[mark:] {
+			if e.Kind == "FromApp" {
+				id, _ := e.Fields.Get(11)
+				got = append(got, id)
+			}
+		}
+		var want []string
+		for n := 2; n <= top; n++ {
+			want = append(want, fmt.Sprintf("new-%d", n))
+		}
+		if fmt.Sprint(got) != fmt.Sprint(want) {
+			r.Violate("C01/numbering-restart/kept-messages-survive", fmt.Sprintf("after the peer restarted its numbering (expected number was %d, messages %d.. of the old numbering were kept; own reset first: %v) the application saw %v, the new numbering carried %v; trace tail: %s", exp, exp+x.high, x.ownResetFirst, got, want, strings.Join(l.Tail(12), " ⏎ ")),
+				core.CaseRef{Stream: "reset-during-recovery", Index: i, Detail: l.Tail(60)})
+			return
+		}
+		viol, _ := check(l.Trace)
+		for _, v := range viol {
+			cls := v[:strings.Index(v, ":")]
+			r.Violate("C01/"+cls, v+"; trace tail: "+strings.Join(l.Tail(14), " ⏎ "), core.CaseRef{Stream: "reset-during-recovery", Index: i, Detail: l.Tail(60)})
+		}
+		r.Nontrivial(fmt.Sprintf("rdr|%v", x))
+	})
+}
+
 func run(c *core.Ctx, r *core.Result) {
+	resetDuringRecovery(c, r)
 	core.Each(c, r, "random", c.N(12000, 600000), func(i int, rng *rand.Rand) { history(c, r, "random", i, rng, false) })
 	systematic(c, r, c.N(4, 5))
 }
